@@ -94,6 +94,7 @@ func (e *Enum) setIsIota() {
 	// check all the values
 	values := make([]int64, len(e.Members))
 	seen := make(map[int64]bool)
+	nbExported := 0
 	var max int64 = -1
 	for i, member := range e.Members {
 		v, ok := member.int64()
@@ -105,11 +106,15 @@ func (e *Enum) setIsIota() {
 			continue // ignore non exported const
 		}
 		seen[v] = true
+		nbExported++
 		if max < v {
 			max = v
 		}
 	}
 	if len(seen) != int(max+1) {
+		return
+	}
+	if nbExported != len(seen) { // duplicated values : index != value
 		return
 	}
 
